@@ -47,7 +47,7 @@ func cases(tier string, seed int64) []eng.Case {
 	thorough := tier == "thorough"
 	mul := 1
 	if thorough {
-		mul = 8
+		mul = 16
 	}
 	add := func(kind string, i int, cc caseCfg, run func(c *eng.Ctx, cc caseCfg)) {
 		id := fmt.Sprintf("%s/%d/%s", kind, i, cc.P.tag())
@@ -217,7 +217,7 @@ func pickBGVT(r *eng.Rand, cf *pcfg) bool {
 func init() {
 	eng.Register(&eng.Monitor{
 		ID: "C16", Level: "exploration",
-		Rule: "cases = (protocol family, scheme, ring type, logN, Q/P prime sizes, plaintext modulus / scale, secret distribution, party count 1..8, flooding sigma); inside a case every admissible input level x target (shared key, zero key, public key) x share allocation level x several aggregation plans (index order, accumulator aliased to the second operand, random permutation, random binary tree) x in-place/out-of-place output is executed. distinct key = (family, parameter tag, input level, output level, target / transform, flags); non-trivial = more than one party, or an input level below the maximum, or a flooding sigma above the fresh one, or a non-identity transform.",
+		Rule:  "cases = (protocol family in {keyswitch (sk->shared key, sk->zero key, sk->public key), bgv-share, bgv-refresh, ckks-share, ckks-refresh}, scheme (rlwe NTT / non-NTT, bgv, ckks), ring type, logN, Q/P prime sizes, plaintext modulus family (full-slot t, t of smaller cyclotomic order) / default and non-default scale, secret distribution, party count 1..8 (cycled), flooding sigma in {3.2, 2^10, 2^30}; refresh cases: same or different output parameters incl. N_out = 2N, N/2); inside a case every input level is visited and, per level, sampled: decryption-share level, output level, slot count, mask size logBound (from GetMinimumLevelForRefresh with lambda in {16,40,64,128} or arbitrary), transform (nil, identity, slot map / permutation, x constant, 2-term linear map) x Decode/Encode flags x batched/non-batched input, share allocation level, 3-4 aggregation plans (index order, accumulator aliased to the second operand, random permutation, random binary tree), ShallowCopy instances for odd parties, wire round trip of every third refresh share, in-place / out-of-place outputs. distinct key = (family, parameter tag, input level, share level, output level, slots, logBound, target / transform+flags, entry point); non-trivial = more than one party, or an input level below the maximum, or a share level below the input level, or a flooding sigma above the fresh one, or a transform, or different output parameters.",
 		Cases: cases,
 		Assumptions: []string{
 			"ring kernels (NTT, Montgomery products) used by the harness to evaluate c0+c1*s and c1*s_i are the ones judged by C01; everything after them is math/big",
